@@ -262,6 +262,10 @@ pub struct Case {
     pub profile: String,
     pub tree: Tree,
     pub steps: Vec<Step>,
+    /// hard links: (name, existing file) - both are in `tree` as files with the same bytes; on disk
+    /// the name is a second link to the file's inode
+    #[serde(default)]
+    pub hardlinks: Vec<(String, String)>,
 }
 
 /// a violated invariant
